@@ -439,12 +439,70 @@ def orbitframe_kepl_case():
                 desc="a frame attached to a state given in keplerian form: the state sits at the origin of its own frame")
 
 
+def orbitframe_kin_case(orientation):
+    """velocity in an orbit-attached QSW/TNW frame vs the time derivative of the position in that frame: the reference orbit
+    moves on a two-body trajectory (r' = v, v' = -mu r/|r|^3, carried as dual numbers through the real to_local / orbit2frame /
+    Frame.transform), the probe moves freely (x' = u)."""
+    ins = [(k, "real") for k in RV + XS] + [("mu", "pos")]
+
+    def pre(v):
+        r = [v["rx"], v["ry"], v["rz"]]
+        vel = [v["vx"], v["vy"], v["vz"]]
+        h = [r[1] * vel[2] - r[2] * vel[1], r[2] * vel[0] - r[0] * vel[2], r[0] * vel[1] - r[1] * vel[0]]
+        return [h[0] * h[0] + h[1] * h[1] + h[2] * h[2] > 0]
+
+    def run(env, v):
+        name = f"vfq{next(_cnt)}"
+        if env.symbolic:
+            fr = env.mod("beyond.frames.frames")
+            for mname in ("beyond.utils.matrix", "beyond.frames.orient", "beyond.frames.center", "beyond.frames.local",
+                          "beyond.orbits.forms"):
+                env.mod(mname)
+            forms = importlib.import_module("beyond.orbits.forms")
+            r = [v["rx"], v["ry"], v["rz"]]
+            rn = env.sqrt(r[0] * r[0] + r[1] * r[1] + r[2] * r[2])
+            acc = [-v["mu"] * x / (rn * rn * rn) for x in r]
+            ref_state = [Dual(v["rx"], v["vx"]), Dual(v["ry"], v["vy"]), Dual(v["rz"], v["vz"]),
+                         Dual(v["vx"], acc[0]), Dual(v["vy"], acc[1]), Dual(v["vz"], acc[2])]
+            ref_orb = carrier(ref_state, date=SymDate(0), frame=fr.EME2000, form=forms.CART)
+            new = fr.orbit2frame(name, ref_orb, orientation=orientation)
+            probe = carrier([Dual(v["x"], v["ux"]), Dual(v["y"], v["uy"]), Dual(v["z"], v["uz"]),
+                             Dual(v["ux"], 0), Dual(v["uy"], 0), Dual(v["uz"], 0)], date=SymDate(0), frame=fr.EME2000, form=forms.CART)
+            got = probe.copy(frame=new)
+            lift = lambda q: q if isinstance(q, Dual) else Dual(q, 0)
+            return {"velocity_is_derivative_of_position": [lift(got[3 + i]).v - lift(got[i]).d for i in range(3)]}
+        from beyond.frames import frames as fr
+        from beyond.orbits import Orbit
+        from beyond.dates import Date
+        from datetime import timedelta
+        d = Date(2020, 1, 1)
+        sc = lambda xs: [xs[0] * 1e5 + 7e6, xs[1] * 1e5, xs[2] * 1e5, xs[3] * 1e2, xs[4] * 1e2 + 7.5e3, xs[5] * 1e2]
+        ref_orb = Orbit(sc([v[k] for k in RV]), d, "cartesian", "EME2000", "Kepler")
+        new = fr.orbit2frame(name, ref_orb, orientation=orientation, exists_warning=False)
+        probe = Orbit(sc([v[k] for k in XS]), d, "cartesian", "EME2000", "Kepler")
+        # a probe 1 km away so that the rotation of the triad matters
+        probe[:3] = np.array(ref_orb[:3]) + np.array([1000.0, 500.0, -300.0])
+        h = 0.5
+        p0 = np.array(probe.propagate(d).copy(frame=new))
+        pp = np.array(probe.propagate(d + timedelta(seconds=h)).copy(frame=new))
+        pm = np.array(probe.propagate(d - timedelta(seconds=h)).copy(frame=new))
+        num = (pp[:3] - pm[:3]) / (2 * h)
+        return {"velocity_is_derivative_of_position": list(p0[3:] - num)}
+
+    def ref(env, v, out):
+        return {"velocity_is_derivative_of_position": [0, 0, 0]}
+    return Case(f"orbit_frame/{orientation}/kinematics", ins, run, ref, pre=pre, timeout=120, tol=0, abs_tol=1e-3,
+                signature="orbit-attached QSW/TNW frames carry no rotation rate",
+                desc=f"frame attached to an orbit with {orientation} axes: the velocity of any state expressed in it is the time derivative "
+                     "of its position expressed in it (the triad turns with the orbit)")
+
+
 def all_cases(tier):
     return [rot_case(1), rot_case(2), rot_case(3), kinematic_case("PEF_to_TOD"), kinematic_case("TIRF_to_CIRF"), gmst_rate_case(),
             rate_vector_case("beyond.frames.iau1980"), rate_vector_case("beyond.frames.iau2010"),
             orbitframe_case("QSW"), orbitframe_case("TNW"), orbitframe_case(None),
             orbitframe_case(None, True), orbitframe_case("QSW", True), orbitframe_case("QSW", False, "MOD"),
-            orbitframe_case("TNW", False, "MOD"), orbitframe_kepl_case()] + c02m.cases(tier)
+            orbitframe_case("TNW", False, "MOD"), orbitframe_kepl_case(), orbitframe_kin_case("QSW")] + c02m.cases(tier)
 
 
 def groups(tier):
